@@ -59,8 +59,9 @@ SHAPES = {
 
 
 # root names: several dots, hidden, blank inside, a name ending in ".torrent", non-ASCII
-FILE_NAMES = ["single.bin", "archive.tar.gz", ".bashrc", "noext", "ünï cödé.bin", "x.torrent"]
-DIR_NAMES = [None, "rel.v1.0", ".hidden-root", "sp ace", "t.torrent", "ünï-rööt"]
+# (a colon as second character: what drive-letter handling "for portability" would take for a drive; two dots inside)
+FILE_NAMES = ["single.bin", "archive.tar.gz", ".bashrc", "3:10 noext", "ünï cödé.bin", "x.torrent"]
+DIR_NAMES = [None, "rel.v1.0", ".hidden-root", "3:10 to Yuma", "t.torrent", "ünï-rööt.. vol"]
 
 
 def mk_tree(shape, sizes, name=None, modes=None, nv=0):
@@ -387,6 +388,11 @@ class C02(CreateProp):
             for creator, v in (combos if P >= 2 ** 20 else [combos[n % len(combos)]]):
                 out.append({"creator": creator, "version": v, "P": P, "tree": mk_tree(sh, sizes, modes=modes_for(n, sizes), nv=(n // 2) % 6 if n % 4 == 1 else 0), "clauses": cl,
                             "progress": (1, 2)[n % 2] if n % 7 == 0 else 0})
+        # piece counts of 128k and 128k + 1 (where a hasher that works in segments of pieces starts a new segment) with
+        # short and long tails, at 32 KiB pieces, through every creator
+        for npc, tail in ((128, 0), (128, 1), (128, 5000), (129, 5000), (256, B), (257, B + 1), (128, 3 * B // 2)):
+            for creator, v in combos:
+                out.append({"creator": creator, "version": v, "P": 2 * B, "tree": mk_tree("D2", (npc * 2 * B + tail, 7)), "clauses": cl})
         out += hashers_scaled(["C02.hashers"], tier)
         return out
 
@@ -456,6 +462,8 @@ class C10(CreateProp):
                 if s > 0:
                     out.append({"op": "hashers", "size": s, "P": P, "group": "none", "chdir_between": len(out) % 4 == 0,
                                 "clauses": ["C10.hashers", "C10.steps", "M10.impl"]})
+        for npc, tail in ((128, 0), (128, 1), (128, 5000), (129, 5000), (256, B), (257, B + 1), (128, 3 * B // 2), (64, 1), (512, 77)):
+            out.append({"op": "hashers", "size": npc * 2 * B + tail, "P": 2 * B, "group": "none", "clauses": ["C10.hashers", "C10.steps"]})
         # hashers used directly on MiB-sized pieces / files (their read loops differ)
         M = 2 ** 20
         for P, s in ((8 * M, 12 * M), (8 * M, 4 * M), (16 * M, 20 * M + 1), (64 * M, 33 * M + 1), (64 * M, 64 * M + 1), (M, 3 * M)):
